@@ -15,7 +15,7 @@ use crate::engine::*;
 use crate::httpdrv::{self, HttpCase, HttpGen};
 use crate::models::{hash_for, Hash20};
 use crate::udpdrv::{self, hex, thread_tmp_path, GenParams, UdpCase};
-use crate::vensure;
+use crate::{vensure, vfail};
 use crate::wsdrv::{self, WsCase, WsGen};
 
 pub const RULE: &str = "(reload) sequences of list files built from a known hash set with decorations (upper/lower/mixed-case hex, blank lines, leading/trailing blanks and tabs, CRLF, trailing newline or not) and faults (39/41-digit line, non-hex character, non-UTF-8 byte, missing file) at generated line positions, loaded through update_access_list in modes allow/deny/off; oracle = model A (parse whole file or keep the old set; decisions via AccessListArcSwap::allows and a cache created before the reload). (storage) histories of announce / swap-list / clean / scrape / observe on the UDP, HTTP and WS storage drivers in all three modes, where announces of currently forbidden hashes are withheld as the socket workers do, and the next clean must remove exactly the forbidden torrents and leave permitted ones untouched (compared with models S / W after every step). non-trivial = a failed reload after a good one, a fault at line position > 0, or a list swap that forbids a torrent holding peers followed by a clean; distinct = distinct serialised case";
@@ -247,6 +247,345 @@ pub fn prop_ws(case: &WsCase) -> CaseResult {
     Ok(o)
 }
 
+// ---- end to end: SIGUSR1 reloads against running trackers ---------------------------------------
+
+#[derive(Debug, Clone, Serialize, Deserialize)]
+pub struct E2eCase {
+    /// "udp-mio" | "udp-uring" | "http" | "ws"
+    pub tracker: String,
+    /// 1 allow, 2 deny
+    pub mode: u8,
+    /// per round: (listed torrent indices (0..5), kind: 0 good, 1 bad line, 2 missing file)
+    pub rounds: Vec<(Vec<u8>, u8)>,
+}
+
+fn e2e_hash(t: u8) -> Hash20 {
+    let mut h = [b'q'; 20];
+    h[0] = b'a' + t;
+    h[19] = b'0' + t;
+    h
+}
+
+pub fn prop_e2e(c: &E2eCase) -> CaseResult {
+    use crate::codecs::*;
+    use crate::e2e::*;
+    use std::net::{IpAddr, SocketAddr};
+    use std::time::{Duration, Instant};
+    let mut out = Outcome::default();
+    let dir = tempfile::Builder::new().prefix("vcheck-c11-").tempdir_in("/dev/shm").or_else(|_| tempfile::tempdir()).map_err(|e| Violation::new("inconclusive-io", e.to_string()))?;
+    let path = dir.path().join("list.txt");
+    let mode = if c.mode % 2 == 1 { AccessListMode::Allow } else { AccessListMode::Deny };
+    const CANARY: u8 = 6;
+    // the canary's listed-state flips with every good reload, so a poll tells when it took effect
+    let mut canary_listed = false;
+    let write_list = |listed: &[u8], canary: bool, bad: bool| {
+        let mut text = String::new();
+        for (i, t) in listed.iter().enumerate() {
+            if bad && i == listed.len() / 2 {
+                text.push_str("this-is-not-a-hash\n");
+            }
+            text.push_str(&hex(&e2e_hash(*t)));
+            text.push('\n');
+        }
+        if bad && listed.is_empty() {
+            text.push_str("zz\n");
+        }
+        if canary {
+            text.push_str(&hex(&e2e_hash(CANARY)));
+            text.push('\n');
+        }
+        let tmp = path.with_extension("new");
+        std::fs::write(&tmp, text).unwrap();
+        std::fs::rename(&tmp, &path).unwrap();
+    };
+    write_list(&[], canary_listed, false);
+    let timeout = Duration::from_secs(5);
+    let ip: IpAddr = "127.0.0.1".parse().unwrap();
+    // start the tracker
+    enum T {
+        Udp(Tracker, UdpClient, i64),
+        Http(Tracker),
+        Ws(Tracker, WsClient),
+    }
+    let mut t = match c.tracker.as_str() {
+        "udp-mio" | "udp-uring" => {
+            let uring = c.tracker == "udp-uring";
+            let tr = start_udp(|port| {
+                let mut cfg = udp_config(port, SocketMode::V4Only, uring, 2);
+                cfg.access_list.mode = mode;
+                cfg.access_list.path = path.clone();
+                cfg.cleaning.torrent_cleaning_interval = 1;
+                cfg.cleaning.max_peer_age = 100_000;
+                cfg
+            })
+            .map_err(|e| Violation::new("inconclusive-tracker-start", e))?;
+            let cl = UdpClient::new(ip, tr.port).map_err(|e| Violation::new("inconclusive-client", e))?;
+            cl.send(&bep15_encode_request(&UReq::Connect { tid: 1 })).map_err(|e| Violation::new("inconclusive-send", e))?;
+            let cid = match cl.recv(timeout).map(|(b, _)| bep15_decode_response(&b, true)) {
+                Some(Ok(URsp::Connect { cid, .. })) => cid,
+                other => return Err(Violation::new("inconclusive-connect", format!("{:?}", other))),
+            };
+            T::Udp(tr, cl, cid)
+        }
+        "http" => {
+            let tr = start_http(|port| {
+                let mut cfg = http_config(port, 2, 2);
+                cfg.network.use_ipv6 = false;
+                cfg.access_list.mode = mode;
+                cfg.access_list.path = path.clone();
+                cfg.cleaning.torrent_cleaning_interval = 1;
+                cfg.cleaning.max_peer_age = 100_000;
+                cfg
+            })
+            .map_err(|e| Violation::new("inconclusive-tracker-start", e))?;
+            T::Http(tr)
+        }
+        _ => {
+            let tr = start_ws(|port| {
+                let mut cfg = ws_config(port, 2, 2, false);
+                cfg.access_list.mode = mode;
+                cfg.access_list.path = path.clone();
+                cfg.cleaning.torrent_cleaning_interval = 1;
+                cfg.cleaning.max_peer_age = 100_000;
+                cfg
+            })
+            .map_err(|e| Violation::new("inconclusive-tracker-start", e))?;
+            let to: SocketAddr = (std::net::Ipv4Addr::LOCALHOST, tr.port).into();
+            let cl = WsClient::connect(ip, to).map_err(|e| Violation::new("inconclusive-connect", e))?;
+            T::Ws(tr, cl)
+        }
+    };
+    // announce(hash, port) -> Ok(true) normal reply, Ok(false) error reply; scrape(hash) -> peers stored
+    let mut announce = |t: &mut T, hsh: Hash20, port: u16| -> Result<bool, Violation> {
+        match t {
+            T::Udp(_, cl, cid) => {
+                cl.send(&bep15_encode_request(&UReq::Announce { cid: *cid, tid: 2, info_hash: hsh, peer_id: [1; 20], downloaded: 0, left: 1, uploaded: 0, event: 2, ip: [0; 4], key: 0, numwant: 0, port })).map_err(|e| Violation::new("inconclusive-send", e))?;
+                match cl.recv(timeout).map(|(b, _)| bep15_decode_response(&b, true)) {
+                    Some(Ok(URsp::Announce4 { .. })) => Ok(true),
+                    Some(Ok(URsp::Error { .. })) => Ok(false),
+                    other => Err(Violation::new("no-reply", format!("announce: {:?}", other))),
+                }
+            }
+            T::Http(tr) => {
+                let to: SocketAddr = (std::net::Ipv4Addr::LOCALHOST, tr.port).into();
+                let mut cl = HttpClient::connect(ip, to).map_err(|e| Violation::new("inconclusive-connect", e))?;
+                let req = format!("GET /announce?info_hash={}&peer_id=-TR2940-abcdefghijkl&port={port}&uploaded=0&downloaded=0&left=1 HTTP/1.1\r\nHost: x\r\n\r\n", std::str::from_utf8(&hsh).unwrap());
+                cl.send_segments(&[req.as_bytes()]).map_err(|e| Violation::new("inconclusive-send", e))?;
+                match cl.read_reply(timeout) {
+                    HttpRead::Ok { body, .. } => Ok(!body.starts_with(b"d14:failure reason")),
+                    other => Err(Violation::new("no-reply", format!("announce: {:?}", other))),
+                }
+            }
+            T::Ws(_, cl) => {
+                use aquatic_ws_protocol::common::*;
+                use aquatic_ws_protocol::incoming::*;
+                use aquatic_ws_protocol::outgoing::OutMessage;
+                let m = InMessage::AnnounceRequest(AnnounceRequest { action: AnnounceAction::Announce, info_hash: InfoHash(hsh), peer_id: PeerId([(port % 200) as u8; 20]), bytes_left: Some(1), event: None, offers: None, numwant: None, answer: None, answer_to_peer_id: None, answer_offer_id: None });
+                let text = match m.to_ws_message() {
+                    tungstenite::Message::Text(t) => t.as_str().to_string(),
+                    _ => String::new(),
+                };
+                cl.send_text(text).map_err(|e| Violation::new("inconclusive-send", e))?;
+                match cl.recv(timeout) {
+                    Ok(Some(m)) => match OutMessage::from_ws_message(m) {
+                        Ok(OutMessage::AnnounceResponse(_)) => Ok(true),
+                        Ok(OutMessage::ErrorResponse(_)) => Ok(false),
+                        other => Err(Violation::new("wrong-reply", format!("{:?}", other))),
+                    },
+                    other => Err(Violation::new("no-reply", format!("announce: {:?}", other.map(|_| ())))),
+                }
+            }
+        }
+    };
+    let mut scrape = |t: &mut T, hsh: Hash20| -> Result<usize, Violation> {
+        match t {
+            T::Udp(_, cl, cid) => {
+                cl.send(&bep15_encode_request(&UReq::Scrape { cid: *cid, tid: 3, hashes: vec![hsh] })).map_err(|e| Violation::new("inconclusive-send", e))?;
+                match cl.recv(timeout).map(|(b, _)| bep15_decode_response(&b, true)) {
+                    Some(Ok(URsp::Scrape { stats, .. })) => Ok(stats.first().map(|s| (s.0 + s.2) as usize).unwrap_or(0)),
+                    other => Err(Violation::new("no-reply", format!("scrape: {:?}", other))),
+                }
+            }
+            T::Http(tr) => {
+                let to: SocketAddr = (std::net::Ipv4Addr::LOCALHOST, tr.port).into();
+                let mut cl = HttpClient::connect(ip, to).map_err(|e| Violation::new("inconclusive-connect", e))?;
+                let req = format!("GET /scrape?info_hash={} HTTP/1.1\r\nHost: x\r\n\r\n", std::str::from_utf8(&hsh).unwrap());
+                cl.send_segments(&[req.as_bytes()]).map_err(|e| Violation::new("inconclusive-send", e))?;
+                match cl.read_reply(timeout) {
+                    HttpRead::Ok { body, .. } => {
+                        let tree = ben_parse_strict(&body[..body.len().saturating_sub(2)]).map_err(|e| Violation::new("reply-malformed", e))?;
+                        let n = match tree.get(b"files") {
+                            Some(Ben::Dict(d)) => d.first().map(|(_, v)| match (v.get(b"complete"), v.get(b"incomplete")) {
+                                (Some(Ben::Int(a)), Some(Ben::Int(b))) => (*a + *b) as usize,
+                                _ => 0,
+                            }).unwrap_or(0),
+                            _ => 0,
+                        };
+                        Ok(n)
+                    }
+                    other => Err(Violation::new("no-reply", format!("scrape: {:?}", other))),
+                }
+            }
+            T::Ws(_, cl) => {
+                use aquatic_ws_protocol::common::*;
+                use aquatic_ws_protocol::incoming::*;
+                use aquatic_ws_protocol::outgoing::OutMessage;
+                let m = InMessage::ScrapeRequest(ScrapeRequest { action: ScrapeAction::Scrape, info_hashes: Some(ScrapeRequestInfoHashes::Single(InfoHash(hsh))) });
+                let text = match m.to_ws_message() {
+                    tungstenite::Message::Text(t) => t.as_str().to_string(),
+                    _ => String::new(),
+                };
+                cl.send_text(text).map_err(|e| Violation::new("inconclusive-send", e))?;
+                match cl.recv(timeout) {
+                    Ok(Some(m)) => match OutMessage::from_ws_message(m) {
+                        Ok(OutMessage::ScrapeResponse(s)) => Ok(s.files.get(&InfoHash(hsh)).map(|f| f.complete + f.incomplete).unwrap_or(0)),
+                        other => Err(Violation::new("wrong-reply", format!("{:?}", other))),
+                    },
+                    other => Err(Violation::new("no-reply", format!("scrape: {:?}", other.map(|_| ())))),
+                }
+            }
+        }
+    };
+    let allowed_by = |listed: &BTreeSet<u8>, t: u8| if mode == AccessListMode::Allow { listed.contains(&t) } else { !listed.contains(&t) };
+    let mut current: BTreeSet<u8> = BTreeSet::new();
+    let mut stored: BTreeSet<u8> = BTreeSet::new(); // torrents with a stored peer of ours
+    let mut port = 1000u16;
+    // WS: one connection may announce one peer id per torrent; our announces vary the peer id by
+    // port, so use a fresh port per torrent only once per connection for WS
+    let ws = matches!(t, T::Ws(..));
+    let mut ws_announced: BTreeSet<u8> = BTreeSet::new();
+    for (round, (listed, kind)) in c.rounds.iter().enumerate() {
+        let listed_set: BTreeSet<u8> = listed.iter().map(|x| x % 6).collect();
+        let listed_vec: Vec<u8> = listed_set.iter().copied().collect();
+        match kind % 3 {
+            0 => {
+                canary_listed = !canary_listed;
+                write_list(&listed_vec, canary_listed, false);
+                unsafe { libc::kill(libc::getpid(), libc::SIGUSR1) };
+                // wait until the reload took effect: the canary's decision flips
+                let want_canary_allowed = if mode == AccessListMode::Allow { canary_listed } else { !canary_listed };
+                let deadline = Instant::now() + Duration::from_secs(5);
+                loop {
+                    port = port.wrapping_add(1).max(1000);
+                    // the canary is announced from a connection of its own for WS (peer id rule)
+                    let ok = if ws {
+                        let tr_port = match &t { T::Ws(tr, _) => tr.port, _ => 0 };
+                        let to: SocketAddr = (std::net::Ipv4Addr::LOCALHOST, tr_port).into();
+                        let mut tmp = T::Ws(Tracker { port: tr_port, thread: None, _lease: lease_port().map_err(|e| Violation::new("inconclusive-io", e))? }, WsClient::connect(ip, to).map_err(|e| Violation::new("inconclusive-connect", e))?);
+                        announce(&mut tmp, e2e_hash(CANARY), port)?
+                    } else {
+                        announce(&mut t, e2e_hash(CANARY), port)?
+                    };
+                    if ok == want_canary_allowed {
+                        break;
+                    }
+                    if Instant::now() > deadline {
+                        vfail!("reload-not-applied", "{} round {round}: 5 s after SIGUSR1 with a well-formed list the canary hash is still {}", c.tracker, if ok { "allowed" } else { "refused" });
+                    }
+                    std::thread::sleep(Duration::from_millis(10));
+                }
+                current = listed_set.clone();
+                out.label("good-reload");
+                // torrents that are now forbidden and hold peers must be removed by the next clean
+                let newly_forbidden: Vec<u8> = stored.iter().copied().filter(|x| !allowed_by(&current, *x)).collect();
+                for x in &newly_forbidden {
+                    let deadline = Instant::now() + Duration::from_secs(6);
+                    loop {
+                        let n = scrape(&mut t, e2e_hash(*x))?;
+                        if n == 0 {
+                            break;
+                        }
+                        if Instant::now() > deadline {
+                            vfail!("forbidden-torrent-not-cleaned", "{} round {round}: torrent {x} became forbidden but still holds {n} peers 6 s (6 cleaning intervals) after the reload", c.tracker);
+                        }
+                        std::thread::sleep(Duration::from_millis(50));
+                    }
+                    stored.remove(x);
+                    out.label("forbidden-torrent-cleaned");
+                    out.nontrivial = true;
+                }
+                // permitted torrents keep their peers across at least one cleaning pass
+                if !newly_forbidden.is_empty() {
+                    std::thread::sleep(Duration::from_millis(1100));
+                }
+                for x in stored.iter() {
+                    let n = scrape(&mut t, e2e_hash(*x))?;
+                    vensure!(n >= 1, "permitted-torrent-lost-peers", "{} round {round}: permitted torrent {x} lost its peers after the reload", c.tracker);
+                }
+            }
+            k => {
+                if k == 1 {
+                    write_list(&listed_vec, canary_listed, true);
+                    out.label("bad-reload");
+                } else {
+                    let _ = std::fs::remove_file(&path);
+                    out.label("missing-file-reload");
+                }
+                unsafe { libc::kill(libc::getpid(), libc::SIGUSR1) };
+                std::thread::sleep(Duration::from_millis(300));
+                if !current.is_empty() || round > 0 {
+                    out.nontrivial = true;
+                }
+            }
+        }
+        // decisions follow `current` for every torrent
+        for x in 0..6u8 {
+            if ws && ws_announced.contains(&x) && !allowed_by(&current, x) {
+                // fine: a refused announce is answered by the socket worker before the peer id rule
+            }
+            port = port.wrapping_add(1).max(1000);
+            let use_port = if ws { 1000 + x as u16 } else { port };
+            let ok = announce(&mut t, e2e_hash(x), use_port)?;
+            let want = allowed_by(&current, x);
+            out.checks += 1;
+            vensure!(
+                ok == want,
+                if want { "permitted-announce-refused" } else { "forbidden-announce-accepted" },
+                "{} round {round} ({}): announce for torrent {x} was {}, the list in force ({:?}, mode {:?}) says {}",
+                c.tracker,
+                match kind % 3 { 0 => "after a good reload", 1 => "after a reload with a malformed line", _ => "after a reload of a missing file" },
+                if ok { "accepted" } else { "refused" },
+                current,
+                mode,
+                if want { "accept" } else { "refuse" }
+            );
+            if ok {
+                stored.insert(x);
+                ws_announced.insert(x);
+            } else {
+                // a refused announce creates no state
+                if !stored.contains(&x) {
+                    let n = scrape(&mut t, e2e_hash(x))?;
+                    vensure!(n == 0, "refused-announce-created-state", "{} round {round}: refused announce for torrent {x} left {n} stored peers", c.tracker);
+                }
+            }
+        }
+    }
+    out.label(&c.tracker);
+    Ok(out)
+}
+
+fn e2e_cases(seed: u64, tier: Tier) -> Vec<E2eCase> {
+    let mut v = Vec::new();
+    let trackers = ["udp-mio", "udp-uring", "http", "ws"];
+    for (i, tr) in trackers.iter().enumerate() {
+        for mode in tier.pick(vec![1 + (i as u8 % 2)], vec![1u8, 2]) {
+            let n = tier.pick(5, 12);
+            let mut rounds = Vec::new();
+            for r in 0..n {
+                let x = derive_seed(seed, "C11", "e2e", (i * 100 + r) as u64 + mode as u64 * 1000);
+                let listed: Vec<u8> = (0..6u8).filter(|t| (x >> t) & 1 == 1).collect();
+                // first round good; then mixed
+                let kind = if r == 0 { 0 } else { ((x >> 8) % 4) as u8 % 3 };
+                rounds.push((listed, kind));
+            }
+            rounds.push((vec![0, 1], 0));
+            v.push(E2eCase { tracker: tr.to_string(), mode, rounds });
+        }
+    }
+    v
+}
+
 pub fn run(ctx: &mut Ctx) {
     ctx.assume("list files are decorated with ASCII blanks/tabs/CR only (documented domain: newline-separated hex info hashes)");
     ctx.assume("at storage level, announces of forbidden hashes are withheld by the harness as the socket workers' gate does; the gate itself and SIGUSR1 handling are exercised end to end by the `e2e` sub-check");
@@ -266,6 +605,19 @@ pub fn run(ctx: &mut Ctx) {
         ctx.require_label(sub, "access-list-swap", 0.2);
         ctx.require_label(sub, "forbidden-torrent-cleaned", 0.05);
     }
+    // end to end: SIGUSR1 reloads; trackers one after the other (the signal reaches every
+    // tracker of the process)
+    ctx.confirm_runs = 2;
+    ctx.run_regress::<E2eCase, _>("e2e", prop_e2e);
+    let cases = e2e_cases(ctx.seed, t);
+    let saved = ctx.threads;
+    ctx.threads = 1;
+    ctx.run_enum("e2e", cases, false, prop_e2e);
+    ctx.threads = saved;
+    ctx.confirm_runs = 0;
+    for l in ["good-reload", "bad-reload", "forbidden-torrent-cleaned"] {
+        ctx.require_label("e2e", l, 0.5);
+    }
 }
 
 pub fn replay(path: &str, sub: &str, case: serde_json::Value) -> i32 {
@@ -273,6 +625,7 @@ pub fn replay(path: &str, sub: &str, case: serde_json::Value) -> i32 {
         "udp-storage" => replay_one::<UdpCase, _>("C11", path, case, prop_udp),
         "http-storage" => replay_one::<HttpCase, _>("C11", path, case, prop_http),
         "ws-storage" => replay_one::<WsCase, _>("C11", path, case, prop_ws),
+        "e2e" => replay_one::<E2eCase, _>("C11", path, case, prop_e2e),
         _ => replay_one::<ReloadCase, _>("C11", path, case, prop_reload),
     }
 }
